@@ -391,6 +391,11 @@ type HAMTDirectory struct {
 	// for the HAMTShardingSize option.
 	sizeChange int
 	totalLinks int
+	// totalLinksUnknown is set for a directory loaded from a node until its
+	// entries have been counted: the number of links of the root shard says
+	// nothing about the entries stored in child shards, so totalLinks is
+	// only a lower bound.
+	totalLinksUnknown bool
 
 	// Size estimation mode. If nil, falls back to global HAMTSizeEstimation.
 	sizeEstimation *SizeEstimationMode
@@ -503,7 +508,10 @@ func NewHAMTDirectoryFromNode(dserv ipld.DAGService, node ipld.Node) (*HAMTDirec
 		return nil, err
 	}
 	dir.shard = shard
+	// Lower bound only: entries inside child shards are not included. The
+	// entries are counted when the count is first needed (see countTotalLinks).
 	dir.totalLinks = len(node.Links())
+	dir.totalLinksUnknown = true
 
 	return dir, nil
 }
@@ -1136,6 +1144,14 @@ func (d *HAMTDirectory) needsToSwitchToBasicDir(ctx context.Context, name string
 		return false, err
 	}
 
+	if d.maxLinks > 0 && d.totalLinksUnknown {
+		// Loaded from a node: count the entries, giving up as soon as there are
+		// too many for a BasicDirectory anyway.
+		if err := d.countTotalLinks(ctx, d.maxLinks+1); err != nil {
+			return false, err
+		}
+	}
+
 	// Calculate new total link count after this operation
 	newTotalLinks := d.totalLinks
 	if nodeToAdd != nil {
@@ -1249,6 +1265,34 @@ func (d *HAMTDirectory) sizeBelowThreshold(ctx context.Context, sizeChange int) 
 
 	// Enumerated all links in all shards before threshold reached.
 	return true, nil
+}
+
+// countTotalLinks counts the entries of a directory that was loaded from a node.
+// It stops once more than limit entries have been seen; totalLinks is then still
+// a lower bound (above limit) and the count stays unknown.
+func (d *HAMTDirectory) countTotalLinks(ctx context.Context, limit int) error {
+	ctx, cancel := context.WithCancel(ctx)
+	defer cancel()
+
+	count := 0
+	linkResults := d.EnumLinksAsync(ctx)
+	for linkResult := range linkResults {
+		if linkResult.Err != nil {
+			return linkResult.Err
+		}
+		count++
+		if count > limit {
+			cancel()
+			// Wait for channel to close so links are not being read after return.
+			for range linkResults {
+			}
+			d.totalLinks = count
+			return nil
+		}
+	}
+	d.totalLinks = count
+	d.totalLinksUnknown = false
+	return nil
 }
 
 // DynamicDirectory wraps a Directory interface and provides extra logic
